@@ -255,6 +255,10 @@ func (i pyInt) Operator(operator Operator, operand pyObject) pyObject {
 		if operator == Multiply {
 			return o.Repeat(i)
 		}
+	case pyFrozenList:
+		if operator == Multiply {
+			return o.Repeat(i)
+		}
 	}
 	panic("Cannot operate on int and " + operand.Type())
 }
@@ -314,7 +318,7 @@ func (s pyString) Operator(operator Operator, operand pyObject) pyObject {
 			// Another one: "%d" % 4
 			return pyString(fmt.Sprintf(string(s), i))
 		}
-		l, ok := operand.(pyList)
+		l, ok := asList(operand)
 		if !ok {
 			panic("Argument to string interpolation must be a string or list; was " + operand.Type())
 		}
@@ -361,13 +365,9 @@ func (l pyList) IsTruthy() bool {
 func (l pyList) Operator(operator Operator, operand pyObject) pyObject {
 	switch operator {
 	case Add:
-		l2, ok := operand.(pyList)
+		l2, ok := asList(operand)
 		if !ok {
-			fl, ok := operand.(pyFrozenList)
-			if !ok {
-				panic("Cannot add list and " + operand.Type())
-			}
-			l2 = fl.pyList
+			panic("Cannot add list and " + operand.Type())
 		}
 		// Always build a new list; appending to l could write into spare capacity that it
 		// shares with other lists derived from it.
@@ -386,7 +386,7 @@ func (l pyList) Operator(operator Operator, operand pyObject) pyObject {
 		return l[pyIndex(l, operand, false)]
 	case LessThan:
 		// Needed for sorting.
-		l2, ok := operand.(pyList)
+		l2, ok := asList(operand)
 		if !ok {
 			panic("Cannot compare list and " + operand.Type())
 		}
@@ -525,7 +525,7 @@ func (d pyDict) Operator(operator Operator, operand pyObject) pyObject {
 		}
 		panic("unknown dict key: " + s.String())
 	case Union:
-		d2, ok := operand.(pyDict)
+		d2, ok := asDict(operand)
 		if !ok {
 			panic("Operator to | must be another dict, not " + operand.Type())
 		}
@@ -1069,7 +1069,7 @@ func (r *pyRange) IsTruthy() bool {
 }
 
 func (r *pyRange) Operator(operator Operator, operand pyObject) pyObject {
-	if l, ok := operand.(pyList); ok && operator == Add {
+	if l, ok := asList(operand); ok && operator == Add {
 		return append(r.toList(len(l)), l...)
 	}
 	panic(fmt.Sprintf("operator %s not implemented on type range", operator))
